@@ -107,11 +107,8 @@ theorem for3_spec (succ pred : Nat → List Nat) (len : Nat → Rat) (start fuel
          LN ++ ((nextOf len start maxLen p le s).map Prod.snd).toList) := by
   unfold Gen.Lanelet_find_lanelet_successors_in_range.for3 finalOf nextOf blocked
   dsimp only
-  repeat' split
-  all_goals (try simp_all)
-  all_goals (try split)
-  all_goals (try simp_all)
-  all_goals (first | done | (exfalso; linarith))
+  by_cases h1 : s ∈ p <;> by_cases h2 : s = start <;> by_cases h3 : maxLen ≤ le <;> by_cases h4 : le + len s < maxLen <;>
+    simp [h1, h2, h3, h4]
 
 theorem for2_spec (succ pred : Nat → List Nat) (len : Nat → Rat) (start fuel : Nat) (maxLen : Rat)
     (F PN : List Path) (LN : List Rat) (it : Item) :
@@ -144,11 +141,8 @@ theorem pfor3_spec (succ pred : Nat → List Nat) (len : Nat → Rat) (start fue
          LN ++ ((nextOf len start maxLen p le s).map Prod.snd).toList) := by
   unfold Gen.Lanelet_find_lanelet_predecessors_in_range.for3 finalOf nextOf blocked
   dsimp only
-  repeat' split
-  all_goals (try simp_all)
-  all_goals (try split)
-  all_goals (try simp_all)
-  all_goals (first | done | (exfalso; linarith))
+  by_cases h1 : s ∈ p <;> by_cases h2 : s = start <;> by_cases h3 : maxLen ≤ le <;> by_cases h4 : le + len s < maxLen <;>
+    simp [h1, h2, h3, h4]
 
 theorem pfor2_spec (succ pred : Nat → List Nat) (len : Nat → Rat) (start fuel : Nat) (maxLen : Rat)
     (F PN : List Path) (LN : List Rat) (it : Item) :
@@ -308,8 +302,8 @@ theorem amin_two_cols : ∀ (cl cr : List Rat) (n : Nat), cl.length = n → cr.l
 theorem tie_cumsum_center (norm : Pt → Rat) (c : List Pt) (hc : c ≠ []) :
     Gen.Lanelet_compute_polyline_cumsum_dist norm [c] = cumDist (segLens (normLen norm) c) := by
   unfold Gen.Lanelet_compute_polyline_cumsum_dist
-  simp only [List.map_cons, List.map_nil, List.nil_append, List.cons_append, List.append_nil, List.singleton_append, Int.zero_add, item, pyGet?, enumerate, enumerateFrom, List.foldl_cons, List.foldl_nil,
-    Gen.Lanelet_compute_polyline_cumsum_dist.for1, Gen.Lanelet_compute_polyline_cumsum_dist.for2, empty, append, rowNorms_diff, CR.PyC20.cumsum, cumDist]
+  simp [List.map_cons, List.map_nil, List.nil_append, List.cons_append, List.append_nil, List.singleton_append, Int.zero_add, item, pyGet?, enumerate, enumerateFrom, List.foldl_cons, List.foldl_nil,
+    empty, append, rowNorms_diff, CR.PyC20.cumsum, cumDist]
   have hlen : (0 :: segLens (normLen norm) c).length = c.length := by
     simpa using segLens_length (normLen norm) c hc
   have := amin_one_col (0 :: segLens (normLen norm) c) c.length hlen
@@ -319,8 +313,8 @@ theorem tie_cumsum_center (norm : Pt → Rat) (c : List Pt) (hc : c ≠ []) :
 theorem tie_cumsum_inner (norm : Pt → Rat) (l r : List Pt) (hl : l ≠ []) (hlr : l.length = r.length) :
     Gen.Lanelet_compute_polyline_cumsum_dist norm [l, r] = cumDistMin (segLens (normLen norm) l) (segLens (normLen norm) r) := by
   unfold Gen.Lanelet_compute_polyline_cumsum_dist
-  simp only [List.map_cons, List.map_nil, List.nil_append, List.cons_append, List.append_nil, List.singleton_append, Int.zero_add, item, pyGet?, enumerate, enumerateFrom, List.foldl_cons, List.foldl_nil,
-    Gen.Lanelet_compute_polyline_cumsum_dist.for1, Gen.Lanelet_compute_polyline_cumsum_dist.for2, empty, append,
+  simp [List.map_cons, List.map_nil, List.nil_append, List.cons_append, List.append_nil, List.singleton_append, Int.zero_add, item, pyGet?, enumerate, enumerateFrom, List.foldl_cons, List.foldl_nil,
+    empty, append,
     rowNorms_diff, CR.PyC20.cumsum, cumDistMin]
   have hr : r ≠ [] := by intro h; subst h; simp at hlr; exact hl hlr
   have h1 : (0 :: segLens (normLen norm) l).length = l.length := by
